@@ -218,7 +218,7 @@ struct Agg {
 fn default_runs(id: &str, thorough: bool) -> u64 {
     let q = match id {
         "C01" => 1600,
-        "C02" => 1800,
+        "C02" => 900,
         "C03" => 1700,
         "C04" => 500,
         "C05" => 1500,
